@@ -513,6 +513,21 @@ func fieldOfDiff(d string) string {
 	return "?"
 }
 
+// lastField: "A.B[0].C.Incomplete: true vs false" -> "Incomplete"
+func lastField(d string) string {
+	if i := strings.Index(d, ":"); i > 0 {
+		p := d[:i]
+		if j := strings.LastIndex(p, "."); j >= 0 {
+			p = p[j+1:]
+		}
+		if k := strings.Index(p, "["); k > 0 {
+			p = p[:k]
+		}
+		return p
+	}
+	return "?"
+}
+
 func canonAtoms(v reflect.Value) string {
 	var sb strings.Builder
 	t := v.Type()
@@ -699,7 +714,7 @@ func (c *checker) checkTree(root ast.Node, origin string) {
 		return
 	}
 	if d := eqNode(root, rb, false); d != "" {
-		c.fail("deep:"+fieldOfDiff(d), "recursively rebuilt tree differs from the original: "+d, map[string]interface{}{"origin": origin}, nil, nil)
+		c.fail("deep:"+lastField(d), "recursively rebuilt tree differs from the original: "+d, map[string]interface{}{"origin": origin}, nil, nil)
 	}
 	c.rep.Dist("trees")
 }
@@ -1011,7 +1026,8 @@ func main() {
 	if a.Thorough() {
 		c.maxCase = 8000
 	}
-	c.cases = vh.NewCases(a, "From Coq Require Import List String ZArith.\nFrom Verif Require Import C22.Model.\nRequire Import GenC22a_Table.\nImport ListNotations.\nOpen Scope string_scope.",
+	absOut, _ := filepath.Abs(a.Out)
+	c.cases = vh.NewCases(a, "From Coq Require Import List String ZArith.\nFrom Verif Require Import C22.Model.\nAdd LoadPath \""+absOut+"\" as Gen.\nFrom Gen Require Import GenC22a_Table.\nImport ListNotations.\nOpen Scope string_scope.",
 		"case", "mismatches_in gen_table", 250)
 	wd := vh.NewWatchdog(rep, 60*time.Second)
 
